@@ -69,6 +69,15 @@ Proof.
 Qed.
 Print Assumptions C19_rollback_refuted.
 
+(* actively persisted store: a key-only update (UpdateKey) of an out-of-node value, in a transaction that also actively
+   persisted an add, then rollback: the committed value blob is deleted *)
+Theorem C19_rollback_keyonly_refuted : exists h,
+  In (1%Z, None) (view (history o_active d0 h)) /\ In (1%Z, 7) (mrun [] (committed_ops h)).
+Proof.
+  exists h_rollback_keyonly. destruct rollback_keyonly_witness as [H1 H2]. rewrite H1, H2. split; now left.
+Qed.
+Print Assumptions C19_rollback_keyonly_refuted.
+
 (* "obsolete(t) = exactly the superseded blob ids" is false: the superseded blob (id 1) of an actively
    persisted update survives every later commit, the live item is id 2 *)
 Theorem C19_obsolete_refuted : exists h,
@@ -79,7 +88,7 @@ Print Assumptions C19_obsolete_refuted.
 (* non-vacuity: a three-transaction history in a separate-segment, globally cached store meets the guard *)
 Example C19_nonvacuous :
   let o := mkOpts false false true in
-  let h := [([OAdd 3%Z 5; OAdd 1%Z 6; OGet 3%Z], true); ([OUpdate 3%Z 7; ORemove 1%Z 1%Z; OAdd 9%Z 8], true);
+  let h := [([OAdd 3%Z 5; OAdd 1%Z 6; OGet 3%Z], true); ([OUpdate 3%Z 7; ORemove 1%Z 1%Z; OAdd 9%Z 8; OUpdKey 9%Z; OUpdKey 5%Z], true);
             ([OUpdate 9%Z 4], false)] in
   guarded o d0 h /\ view (history o d0 h) = [(3%Z, Some 7); (9%Z, Some 8)].
 Proof.
